@@ -125,6 +125,44 @@ DIFFERENT += [
     ('negated local folded although it is reassigned in between',
      'def f(self):\n    b = self.h()\n    if b:\n        b = self.k()\n        self.s = not b\n    else:\n        self.s = True',
      'def f(self):\n    b = self.h()\n    if b:\n        b = self.k()\n        self.s = False\n    else:\n        self.s = True'),
+    ('helper call hoisted above the read of a list it replaces',
+     'def f(self):\n    self.items.append(self._next())',
+     'def f(self):\n    self.items = []\n    self.items.append(1)',
+     {'helpers_a': 'def _next(self):\n    self.items = []\n    return 1'}),
+    ('dict.get with a default that has side effects',
+     'def f(k):\n    return D.get(k, g())',
+     'def f(k):\n    return D[k] if k in D else g()', {'dicts': ['D']}),
+    ('get on a parameter that shadows the module dict',
+     'def f(D, k):\n    return D.get(k, 0)',
+     'def f(D, k):\n    return D[k] if k in D else 0', {'dicts': ['D']}),
+    ('percent with an operand that may be a tuple',
+     "def f(x):\n    return 'a %s' % x",
+     "def f(x):\n    return f'a {x!s}'"),
+    ('length taken after a call that may change the argument',
+     'def f(out, p):\n    n = len(p)\n    out.consume(p)\n    return n',
+     'def f(out, p):\n    out.consume(p)\n    return len(p)'),
+    # state carried between iterations, out of loops, out of try / with bodies (found 2026-10-04: the tree-level steps dropped such
+    # assignments because the canonical tree of `what follows` ends at the end of the loop / try / with body)
+    ('reset moved after continue','def f(xs):\n    found = None\n    for x in xs:\n        found = None\n        if x.skip:\n            continue\n        found = g(x)\n    return found','def f(xs):\n    found = None\n    for x in xs:\n        if x.skip:\n            continue\n        found = g(x)\n    return found'),
+    ('reset deleted','def f(xs):\n    for x in xs:\n        v = None\n        if x.c:\n            v = g(x)\n        use(v)','def f(xs):\n    v = None\n    for x in xs:\n        if x.c:\n            v = g(x)\n        use(v)'),
+    ('temp across back edge','def f(self, xs):\n    t = self.a\n    for x in xs:\n        self.a += 1\n        use(t)','def f(self, xs):\n    for x in xs:\n        self.a += 1\n        use(self.a)'),
+    ('prev carried','def f(xs):\n    prev = None\n    for cur in xs:\n        if prev is not None:\n            g(prev, cur)\n        prev = cur','def f(xs):\n    prev = None\n    for cur in xs:\n        if prev is not None:\n            g(prev, cur)'),
+    ('finally reads flag','def f():\n    ok = False\n    try:\n        risky()\n        ok = True\n    finally:\n        log(ok)','def f():\n    try:\n        risky()\n    finally:\n        log(True)'),
+    ('break flag','def f(xs):\n    found = False\n    for x in xs:\n        if x:\n            found = True\n            break\n    return found','def f(xs):\n    for x in xs:\n        if x:\n            break\n    return False'),
+    ('while flag','def f(self):\n    done = False\n    while not done:\n        self.step()\n        done = True','def f(self):\n    while True:\n        self.step()'),
+    ('generator state','def f(xs):\n    first = True\n    for x in xs:\n        if first:\n            yield 0\n        first = False\n        yield x','def f(xs):\n    for x in xs:\n        yield 0\n        yield x'),
+    ('count const in loop','def f(xs):\n    n = 0\n    for x in xs:\n        n = 1\n        g(x)\n    return n','def f(xs):\n    for x in xs:\n        g(x)\n    return 0'),
+    ('with flag after','def f():\n    ok = False\n    with cm():\n        risky()\n        ok = True\n    g(ok)\n    h()','def f():\n    with cm():\n        risky()\n    g(False)\n    h()'),
+    ('try else flag','def f():\n    st = 0\n    try:\n        risky()\n    except E:\n        st = 1\n    use(st)\n    more()','def f():\n    try:\n        risky()\n    except E:\n        pass\n    use(0)\n    more()'),
+    ('nested loop reset','def f(rows):\n    for r in rows:\n        k = 0\n        for c in r:\n            if c:\n                k = 1\n        use(k)','def f(rows):\n    for r in rows:\n        for c in r:\n            pass\n        use(0)'),
+    ('test-only carried','def f(xs):\n    t = False\n    for x in xs:\n        if t:\n            h()\n        t = x.a == 1\n        if t:\n            g()','def f(xs):\n    for x in xs:\n        if x.a == 1:\n            g()'),
+    ('first-iteration init','def f(xs):\n    base = None\n    for x in xs:\n        if base is None:\n            base = x.v\n        use(x.v - base)','def f(xs):\n    for x in xs:\n        base = x.v\n        use(x.v - base)'),
+    ('for else','def f(xs):\n    r = 0\n    for x in xs:\n        if x:\n            r = 1\n            break\n    else:\n        r = 2\n    return r','def f(xs):\n    for x in xs:\n        if x:\n            break\n    else:\n        return 2\n    return 0'),
+    ('attr flag carried','def f(self, xs):\n    for x in xs:\n        if self.first:\n            g(x)\n        self.first = False','def f(self, xs):\n    for x in xs:\n        if self.first:\n            g(x)'),
+    ('sink across continue in try','def f(xs):\n    for x in xs:\n        err = None\n        try:\n            g(x)\n        except E as e:\n            err = e\n        use(err)','def f(xs):\n    err = None\n    for x in xs:\n        try:\n            g(x)\n        except E as e:\n            err = e\n        use(err)'),
+    ('flag reset in a loop dropped','def f(xs):\n    p = True\n    for x in xs:\n        if p:\n            g(x)\n        p = False','def f(xs):\n    p = True\n    for x in xs:\n        if p:\n            g(x)'),
+    ('literal assigned in a try body read after it','def f():\n    v = 0\n    try:\n        risky()\n        v = 1\n    except E:\n        pass\n    return v','def f():\n    try:\n        risky()\n    except E:\n        pass\n    return 0'),
+    ('literal assigned in a loop read after it','def f(xs):\n    n = 0\n    for x in xs:\n        if x:\n            n = 1\n    return n','def f(xs):\n    for x in xs:\n        pass\n    return 0'),
 ]
 
 SAME = [
@@ -160,21 +198,45 @@ SAME = [
     ('flag set from a tested local', 'def f(self):\n    if not self.h():\n        self.t = 0\n        self.s = True\n    else:\n        self.s = False\n    self.p = 1', 'def f(self):\n    b = self.h()\n    if not b:\n        self.t = 0\n    self.s = not b\n    self.p = 1'),
     ('test repeated after an unrelated assignment', 'def f(self):\n    if self.z:\n        self.a = self.b\n    if not self.z and not self.q():\n        g()', 'def f(self):\n    if self.z:\n        self.a = self.b\n    elif not self.q():\n        g()'),
     ('match object is not None', 'def f(s):\n    if RE_X.match(s):\n        return 1\n    return 0', 'def f(s):\n    if RE_X.match(s) is not None:\n        return 1\n    return 0'),
+    ('static helper called inside an expression', 'def f(self, ld):\n    self.xs.append(self._rd(ld))',
+     'def f(self, ld):\n    v = ld.read()\n    if v < 0:\n        raise E(v)\n    self.xs.append(v)',
+     {'helpers_a': '@staticmethod\ndef _rd(ld):\n    v = ld.read()\n    if v < 0:\n        raise E(v)\n    return v'}),
+    ('get on a module-level dict display', 'def f(k):\n    return D.get(k, 0)', 'def f(k):\n    if k in D:\n        return D[k]\n    return 0', {'dicts': ['D']}),
+    ('method of a chosen object', 'def f(c, v):\n    return (A if c else B).match(v)', 'def f(c, v):\n    return A.match(v) if c else B.match(v)'),
+    ('percent with a decoded operand', "def f(b):\n    return 'x %s' % b.decode('ascii')", "def f(b):\n    return f\"x {b.decode('ascii')}\""),
+    ('extend only reads its argument', 'def f(out, p):\n    n = len(p)\n    out.extend(p)\n    return n', 'def f(out, p):\n    out.extend(p)\n    return len(p)'),
+    ('annotated assignment in a function', 'def f(self, v):\n    self.n: int = int(v)', 'def f(self, v):\n    self.n = int(v)'),
 ]
+
+
+def _canon(src, extra, side):
+    helpers = None
+    hs = extra.get('helpers_' + side)
+    if hs:
+        h = ast.parse(hs).body[0]
+        helpers = {h.name: (h, bool(h.args.args) and h.args.args[0].arg == 'self' or any(isinstance(d, ast.Name) and d.id == 'staticmethod' for d in h.decorator_list))}
+    return equiv.canonical(ast.parse(src).body[0], helpers, dicts=extra.get('dicts'))
 
 
 def run():
     bad = []
-    for what, a, b in DIFFERENT:
-        ca = equiv.canonical(ast.parse(a).body[0])
-        cb = equiv.canonical(ast.parse(b).body[0])
-        if ca is not None and ca == cb:
-            bad.append(f'taken as equivalent: {what}')
-    for what, a, b in SAME:
-        ca = equiv.canonical(ast.parse(a).body[0])
-        cb = equiv.canonical(ast.parse(b).body[0])
-        if ca is None or ca != cb:
-            bad.append(f'not recognised as equivalent: {what}')
+    saved = equiv.REPO_DEFINED[0]
+    equiv.REPO_DEFINED[0] = frozenset(('consume', 'f', 'g'))
+    try:
+        for what, a, b, *rest in DIFFERENT:
+            extra = rest[0] if rest else {}
+            ca = _canon(a, extra, 'a')
+            cb = _canon(b, extra, 'b')
+            if ca is not None and ca == cb:
+                bad.append(f'taken as equivalent: {what}')
+        for what, a, b, *rest in SAME:
+            extra = rest[0] if rest else {}
+            ca = _canon(a, extra, 'a')
+            cb = _canon(b, extra, 'b')
+            if ca is None or ca != cb:
+                bad.append(f'not recognised as equivalent: {what}')
+    finally:
+        equiv.REPO_DEFINED[0] = saved
     return bad, len(DIFFERENT), len(SAME)
 
 
